@@ -1,0 +1,76 @@
+//go:build verif
+
+package eventloop
+
+import "sync/atomic"
+
+// VerifHook, when set (build tag "verif" only), is called at every yield point: immediately before each
+// synchronisation action of the loop and at the scheduling, delivery and clearing of jobs.  obj identifies the job
+// the point is about (a *job, *Timer, *Interval or *Immediate), or is nil.
+var VerifHook func(loop *EventLoop, point string, obj interface{})
+
+func verifPoint(loop *EventLoop, point string, obj interface{}) {
+	if h := VerifHook; h != nil {
+		h(loop, point, obj)
+	}
+}
+
+// VerifSnapshot is a white-box view of the loop's bookkeeping.
+type VerifSnapshot struct {
+	AuxJobs    int
+	Token      bool
+	CanRun     bool
+	Running    bool
+	Terminated bool
+	JobCount   int
+	Jobs       int
+}
+
+// VerifSnapshot reads the internal state without synchronisation: call it only while every goroutine that
+// uses the loop is parked in VerifHook.
+func (loop *EventLoop) VerifSnapshot() VerifSnapshot {
+	return VerifSnapshot{
+		AuxJobs:    len(loop.auxJobs),
+		Token:      len(loop.wakeupChan) > 0,
+		CanRun:     atomic.LoadInt32(&loop.canRun) != 0,
+		Running:    loop.running,
+		Terminated: loop.terminated,
+		JobCount:   int(loop.jobCount),
+		Jobs:       len(loop.jobs),
+	}
+}
+
+// VerifJobKey returns a stable identity for the job a handle or hook object refers to (nil for nil handles).
+func VerifJobKey(obj interface{}) interface{} {
+	switch v := obj.(type) {
+	case *job:
+		if v == nil {
+			return nil
+		}
+		return v
+	case *Timer:
+		if v == nil {
+			return nil
+		}
+		return &v.job
+	case *Interval:
+		if v == nil {
+			return nil
+		}
+		return &v.job
+	case *Immediate:
+		if v == nil {
+			return nil
+		}
+		return &v.job
+	}
+	return nil
+}
+
+// VerifJobCancelled reports the cancelled flag of a job identified by VerifJobKey.
+func VerifJobCancelled(key interface{}) bool {
+	if j, ok := key.(*job); ok && j != nil {
+		return j.cancelled
+	}
+	return false
+}
